@@ -49,3 +49,65 @@ Definition xunfile (k : Z) (o : O) (t : xtable) : result xtable :=     (* d[k].r
 (* ---- the model's view commutes with the primitives ---- *)
 Lemma by_priority_push o l : by_priority (o :: l) = insert o (by_priority l).
 Proof. reflexivity. Qed.
+
+(* ---- removal commutes with the view by priority (one side, distinct ids) ---- *)
+Require Import Pams.MatchQ Pams.MarketInv.
+From Coq Require Import Sorted Lia.
+
+Lemma insert_before (x : O) (L : list O) : (forall z, In z L -> oltq x z = true) -> insert x L = x :: L.
+Proof. destruct L as [|y r]; intros H; [reflexivity|]. cbn [insert]. rewrite (H y (or_introl eq_refl)). reflexivity. Qed.
+
+Lemma remove_insert_eq (x : O) i (L : list O) : oid x = i -> ~ In i (map (@oid Q) L) -> remove_id i (insert x L) = L.
+Proof.
+  intros Hx. induction L as [|y r IH]; intros Hn; cbn [insert remove_id].
+  - rewrite Hx, Z.eqb_refl. reflexivity.
+  - destruct (oltq x y).
+    + cbn [remove_id]. rewrite Hx, Z.eqb_refl. reflexivity.
+    + cbn [remove_id]. destruct (oid y =? i) eqn:E.
+      * apply Z.eqb_eq in E. exfalso. apply Hn. left. exact E.
+      * f_equal. apply IH. intros H. apply Hn. right. exact H.
+Qed.
+
+Lemma remove_insert_ne side (x : O) i (L : list O) : sortedq L -> Forall (fun z : O => isbuy z = side) L -> isbuy x = side ->
+  oid x <> i -> remove_id i (insert x L) = insert x (remove_id i L).
+Proof.
+  intros Hs Hside Hx Hne. induction L as [|y r IH]; cbn [insert remove_id].
+  - destruct (oid x =? i) eqn:E; [apply Z.eqb_eq in E; contradiction|reflexivity].
+  - apply StronglySorted_inv in Hs. destruct Hs as [Hs' Hy]. pose proof (Forall_inv Hside) as Sy. pose proof (Forall_inv_tail Hside) as Sr.
+    cbn beta in Sy.
+    destruct (oltq x y) eqn:E.
+    + cbn [remove_id]. destruct (oid x =? i) eqn:E2; [apply Z.eqb_eq in E2; contradiction|].
+      symmetry. apply insert_before. intros z Hz.
+      assert (Hz' : In z (y :: r)) by (eapply In_remove_id; exact Hz). destruct Hz' as [<-|Hz']; [exact E|].
+      rewrite Forall_forall in Hy, Sr. apply (oltq_trans x y z); [rewrite Hx, Sy; reflexivity|rewrite Sy, (Sr z Hz'); reflexivity|exact E|exact (Hy z Hz')].
+    + cbn [remove_id]. destruct (oid y =? i) eqn:E2; [reflexivity|]. cbn [insert]. rewrite E. f_equal. apply IH; assumption.
+Qed.
+
+Lemma by_priority_In (l : list O) x : In x (by_priority l) <-> In x l.
+Proof. induction l as [|y r IH]; [reflexivity|]. cbn [by_priority fold_right]. rewrite In_insert. fold (by_priority r). rewrite IH. cbn. intuition. Qed.
+
+Lemma by_priority_sorted side (l : list O) : Forall (fun z : O => isbuy z = side) l -> NoDup (map (@oid Q) l) -> sortedq (by_priority l).
+Proof.
+  induction l as [|y r IH]; intros Hside Hnd; [constructor|].
+  inversion Hside as [|? ? Sy Sr]; subst. cbn [map] in Hnd. apply NoDup_cons_iff in Hnd. destruct Hnd as [Hn Hnd].
+  cbn [by_priority fold_right]. fold (by_priority r). apply (insert_sorted y (by_priority r) (isbuy y)); auto.
+  - rewrite Forall_forall in *. intros z Hz. apply Sr. apply by_priority_In. exact Hz.
+  - rewrite Forall_forall. intros z Hz E. apply Hn. apply in_map_iff. exists z. split; [exact E|]. apply by_priority_In. exact Hz.
+Qed.
+
+(* the model's remove_id on its sorted list is what removal from the queue looks like in the view by priority *)
+Theorem by_priority_remove side i (l : list O) : Forall (fun z : O => isbuy z = side) l -> NoDup (map (@oid Q) l) ->
+  by_priority (remove_id i l) = remove_id i (by_priority l).
+Proof.
+  induction l as [|y r IH]; intros Hside Hnd; [reflexivity|].
+  inversion Hside as [|? ? Sy Sr]; subst. cbn [map] in Hnd. apply NoDup_cons_iff in Hnd. destruct Hnd as [Hn Hnd].
+  cbn [remove_id]. destruct (oid y =? i) eqn:E.
+  - apply Z.eqb_eq in E. cbn [by_priority fold_right]. fold (by_priority r). symmetry. apply remove_insert_eq; [exact E|].
+    intros H. apply Hn. rewrite E. apply in_map_iff in H. destruct H as [z [Ez Hz]]. apply in_map_iff. exists z. split; [exact Ez|].
+    apply by_priority_In. exact Hz.
+  - cbn [by_priority fold_right]. fold (by_priority r) (by_priority (remove_id i r)). rewrite (IH Sr Hnd).
+    symmetry. apply (remove_insert_ne (isbuy y)); auto.
+    + apply (by_priority_sorted (isbuy y)); assumption.
+    + rewrite Forall_forall in *. intros z Hz. apply Sr. apply by_priority_In. exact Hz.
+    + intros H. rewrite H, Z.eqb_refl in E. discriminate.
+Qed.
